@@ -7,6 +7,50 @@ TRUSTED_COMMON = [
 ]
 
 PROPS = {
+    "C01": {
+        "title": "Agreement",
+        "design_ref": "DESIGN.md §3 C01",
+        "technique": "Lean 4 proof of the DecideFame vote core (agreement of decisions, latch lemma) on generated operators + differential correspondence of an exact operational model + prefix-consistency oracle",
+        "level_text": "PARTIAL proof (Lean 4): for Babble's exact tally rule (operators, supermajority formula, coin period regenerated from the Go AST) any two fame decisions agree and a late witness is never famous, for every n and every election; delivered blocks are append-only with consecutive indexes. The instantiation of the vote core from two nodes' views (agreement_static) and validator-set changes are not proved: they are decided by the correspondence of the exact operational model with the code on gossip DAGs inserted in different orders into several real nodes, with a pairwise prefix-consistency oracle.",
+        "level_note": "Trusted: Lean kernel; extractor (operators/thresholds); hand-written operational model tied by correspondence; fork-free histories (C07); static-set theorem only for the vote core.",
+        "trusted_base": ["the operational model Babble.HG (lean/Babble/Model/Hashgraph.lean) is hand-written; it is tied to src/hashgraph by running both on the same gossip DAGs and comparing accept/reject, delivered blocks after every insertion, round/witness/lamport/round-received/fame tables, frames and peer sets",
+                         "cryptography as input bits: signature validity from the real ecdsa.Verify, sort key = R of the signature, coin = middle byte of the hash; SHA-256 collision freedom (event identity = hash)",
+                         "Go map iteration order is modelled by creation order; goroutine interleavings are not modelled (the hashgraph is driven sequentially, as under coreLock)"],
+        "assumptions": ["no equivocation reaches two honest nodes (C07 makes a single node fork-free)", "signature sort keys distinct per frame (checked per trace)"],
+    },
+    "C02": {
+        "title": "Finality",
+        "design_ref": "DESIGN.md §3 C02",
+        "technique": "Lean 4 invariant proofs over the operational hashgraph model (append-only blocks, consecutive indexes, also after reset) + differential correspondence + delivery oracles",
+        "level_text": "Proof (Lean 4) for the model: every insertion attempt only appends to the delivered block list; indexes are consecutive from 0 (from the anchor after a reset) for every history of insertion attempts, any validator-set behaviour; one block per processed round numbered lastBlock+1. PARTIAL: 'round-received strictly increasing' and 'store keeps state hash/receipts' are decided by the oracle on the real code (store re-read after every run), not yet by a theorem.",
+        "level_note": "Trusted: Lean kernel; hand-written operational model tied by correspondence (blocks after every insertion compared).",
+        "trusted_base": ["the operational model Babble.HG (lean/Babble/Model/Hashgraph.lean) is hand-written; it is tied to src/hashgraph by running both on the same gossip DAGs and comparing accept/reject, delivered blocks after every insertion, round/witness/lamport/round-received/fame tables, frames and peer sets",
+                         "cryptography as input bits: signature validity from the real ecdsa.Verify, sort key = R of the signature, coin = middle byte of the hash; SHA-256 collision freedom (event identity = hash)",
+                         "Go map iteration order is modelled by creation order; goroutine interleavings are not modelled (the hashgraph is driven sequentially, as under coreLock)"],
+        "assumptions": [],
+    },
+    "C03": {
+        "title": "Consensus output is a function of the DAG",
+        "design_ref": "DESIGN.md §3 C03",
+        "technique": "Lean 4 proofs of order-independence of frame order and timestamp + differential correspondence over orders / sub-DAGs / stores / cache sizes / batchings",
+        "level_text": "PARTIAL proof (Lean 4): the committed order of a frame and the block timestamp are independent of reception / enumeration order (canonical sort, median); the non-delivering passes never touch output. The order-independence of round/witness/lamport/fame/round-received themselves is decided by the correspondence run: one DAG, several topological orders, downward-closed sub-DAGs, inmem/Badger, cache sizes, batchings, each compared with the Lean model and with each other.",
+        "level_note": "Trusted: Lean kernel; hand-written operational model tied by correspondence; cache sizes at or above the in-flight window.",
+        "trusted_base": ["the operational model Babble.HG (lean/Babble/Model/Hashgraph.lean) is hand-written; it is tied to src/hashgraph by running both on the same gossip DAGs and comparing accept/reject, delivered blocks after every insertion, round/witness/lamport/round-received/fame tables, frames and peer sets",
+                         "cryptography as input bits: signature validity from the real ecdsa.Verify, sort key = R of the signature, coin = middle byte of the hash; SHA-256 collision freedom (event identity = hash)",
+                         "Go map iteration order is modelled by creation order; goroutine interleavings are not modelled (the hashgraph is driven sequentially, as under coreLock)"],
+        "assumptions": ["cache size >= in-flight window (below it the store returns errors: outside the property's range)"],
+    },
+    "C04": {
+        "title": "Committed order extends causality",
+        "design_ref": "DESIGN.md §3 C04",
+        "technique": "Lean 4 proofs about the frame order and block payload of the operational model + differential correspondence + causality oracle",
+        "level_text": "Proof (Lean 4) for the model: block payload = concatenation of the frame events' payloads in committed order; frame order sorted by (Lamport, key), complete and canonical; Lamport timestamps strictly exceed the parents'; so inside a frame ancestors come first. PARTIAL: monotonicity of round received along ancestry (across frames) and at-most-once commitment are decided by the oracle on the real code.",
+        "level_note": "Trusted: Lean kernel; hand-written operational model tied by correspondence; distinct signature sort keys (checked per trace).",
+        "trusted_base": ["the operational model Babble.HG (lean/Babble/Model/Hashgraph.lean) is hand-written; it is tied to src/hashgraph by running both on the same gossip DAGs and comparing accept/reject, delivered blocks after every insertion, round/witness/lamport/round-received/fame tables, frames and peer sets",
+                         "cryptography as input bits: signature validity from the real ecdsa.Verify, sort key = R of the signature, coin = middle byte of the hash; SHA-256 collision freedom (event identity = hash)",
+                         "Go map iteration order is modelled by creation order; goroutine interleavings are not modelled (the hashgraph is driven sequentially, as under coreLock)"],
+        "assumptions": ["signature sort keys distinct for events with equal Lamport timestamps"],
+    },
     "C18": {
         "title": "Block timestamps are Byzantine-tolerant medians",
         "design_ref": "DESIGN.md §3 C18",
